@@ -168,8 +168,16 @@ impl FromStr for Move {
         if !matches!(s.len(), 4 | 5) {
             return Err(RawParseError::BadLength);
         }
-        let src = Coord::from_str(&s[0..2]).map_err(RawParseError::BadSrc)?;
-        let dst = Coord::from_str(&s[2..4]).map_err(RawParseError::BadDst)?;
+        // Use `get()` instead of indexing, as the string may contain multi-byte characters, and
+        // byte ranges that split such a character must yield an error instead of a panic.
+        let src = s
+            .get(0..2)
+            .ok_or(RawParseError::BadSrc(CoordParseError::BadLength))?;
+        let src = Coord::from_str(src).map_err(RawParseError::BadSrc)?;
+        let dst = s
+            .get(2..4)
+            .ok_or(RawParseError::BadDst(CoordParseError::BadLength))?;
+        let dst = Coord::from_str(dst).map_err(RawParseError::BadDst)?;
         let promote = if s.len() == 5 {
             Some(match s.as_bytes()[4] {
                 b'n' => PromotePiece::Knight,
